@@ -11,6 +11,16 @@ use std::task::Poll;
 
 pub const K: u32 = 3; // number of item classes
 
+/// property the run is made for (`--focus`): the side checks of other properties (per-diff limit C15, wake-ups C14)
+/// then do not abandon a history, so that the history reaches the checks of the property in focus
+pub static FOCUS: std::sync::OnceLock<Option<String>> = std::sync::OnceLock::new();
+fn side_check(prop: &str) -> bool {
+    match FOCUS.get() {
+        Some(Some(f)) => f == prop,
+        _ => true,
+    }
+}
+
 #[derive(Clone, Debug, PartialEq, Eq, Hash)]
 pub enum Stage {
     /// no adapter: the plain subscriber stream (C05/C06/C07/C08)
@@ -211,6 +221,8 @@ pub struct Failure {
     pub step: usize,
     pub expected: String,
     pub observed: String,
+    /// further properties the same divergence violates (e.g. C13 when it was first seen right after an emitted batch)
+    pub also: Vec<&'static str>,
 }
 
 struct StageRt {
@@ -443,6 +455,7 @@ fn run_impl<I: Flavour>(sc: &Scenario) -> Outcome {
     // diff kinds each stage has received from the stage below since the last successful quiescent check
     let mut recv: Vec<Vec<&'static str>> = vec![Vec::new(); rts.len() + 1];
     let mut fail_stage: usize = usize::MAX;
+    let mut also_props: Vec<&'static str> = Vec::new();
     let mut last_op_kind: &'static str = "-";
 
     macro_rules! fail {
@@ -456,7 +469,7 @@ fn run_impl<I: Flavour>(sc: &Scenario) -> Outcome {
             t.sort();
             t.dedup();
             return Outcome {
-                failure: Some(Failure { property: $prop, classification: format!("{}/{}", $stage, t.join("+")), what: $what, step: $step, expected: $exp, observed: $obs }),
+                failure: Some(Failure { property: $prop, classification: format!("{}/{}", $stage, t.join("+")), what: $what, step: $step, expected: $exp, observed: $obs, also: also_props.clone() }),
                 stats,
                 final_log: vec![],
             };
@@ -558,7 +571,7 @@ fn run_impl<I: Flavour>(sc: &Scenario) -> Outcome {
             }
             differs
         };
-        if registered && exp_changed && !flag.is_set() {
+        if side_check("C14") && registered && exp_changed && !flag.is_set() {
             fail!("C14", sc.stages.last().map(|s| s.name()).unwrap_or("subscriber"), "stream returned Pending earlier, its view is now stale (or the source is gone), but the waker was not woken".to_string(), step, "waker woken".into(), "not woken".into());
         }
         // ---- poll
@@ -568,7 +581,7 @@ fn run_impl<I: Flavour>(sc: &Scenario) -> Outcome {
             polls += 1;
             match r {
                 Poll::Ready(Some(_item)) => {
-                    if registered && !flag.is_set() {
+                    if side_check("C14") && registered && !flag.is_set() {
                         fail!("C14", sc.stages.last().map(|s| s.name()).unwrap_or("subscriber"), "stream became ready again without the waker of the Pending poll having been woken".to_string(), step, "woken before ready".into(), "ready, not woken".into());
                     }
                     registered = false;
@@ -581,7 +594,7 @@ fn run_impl<I: Flavour>(sc: &Scenario) -> Outcome {
                     }
                 }
                 Poll::Ready(None) => {
-                    if registered && !flag.is_set() {
+                    if side_check("C14") && registered && !flag.is_set() {
                         fail!("C14", sc.stages.last().map(|s| s.name()).unwrap_or("subscriber"), "stream ended without the waker of the Pending poll having been woken".to_string(), step, "woken before end".into(), "ended, not woken".into());
                     }
                     ended = true;
@@ -618,7 +631,7 @@ fn run_impl<I: Flavour>(sc: &Scenario) -> Outcome {
                     }
                     d.clone().apply(&mut rts[si].replica);
                     if let Some(l) = rts[si].st.fixed_limit() {
-                        if rts[si].replica.len() > l {
+                        if side_check("C15") && rts[si].replica.len() > l {
                             let st = rts[si].st.clone();
                             fail!("C15", st.name(), "view of a fixed-limit stage exceeds the limit after a single diff".to_string(), step, format!("len <= {}", l), format!("{:?} after {}", ids(&rts[si].replica), fmt_diff(d)));
                         }
@@ -655,7 +668,7 @@ fn run_impl<I: Flavour>(sc: &Scenario) -> Outcome {
                         }
                         t.sort();
                         t.dedup();
-                        pending_c13 = Some(Failure { property: "C13", classification: format!("{}/{}", st.name(), t.join("+")), what: "after an emitted batch the rebuilt view is not the adapter's view of any state the source had between top-level operations".to_string(), step, expected: format!("view of one of {:?}", &top_states[matched_state..]), observed: format!("{:?}", got) });
+                        pending_c13 = Some(Failure { property: "C13", classification: format!("{}/{}", st.name(), t.join("+")), what: "after an emitted batch the rebuilt view is not the adapter's view of any state the source had between top-level operations".to_string(), step, expected: format!("view of one of {:?}", &top_states[matched_state..]), observed: format!("{:?}", got), also: vec![] });
                     }
                 }
             }
@@ -669,12 +682,16 @@ fn run_impl<I: Flavour>(sc: &Scenario) -> Outcome {
             for (k, rt) in rts.iter().enumerate() {
                 fail_stage = k;
                 let got = ids(&rt.replica);
+                if k + 1 == rts.len() && pending_c13.is_some() {
+                    also_props.push("C13");
+                }
                 if let Err(e) = check_stage(&rt.st, rt.param, &inp, &got) {
                     let prop = if nstages > 1 && rt.st != Stage::Identity { "C12" } else { prop_of(&rt.st) };
                     fail!(prop, rt.st.name(), "at Pending (or end of stream), the view rebuilt from this stage differs from the correct view of its input".to_string(), step, format!("{} (input {:?}, stage {:?})", e, inp, rt.st), format!("{:?}", got));
                 }
                 inp = got;
             }
+            also_props.clear();
             if let Some(f) = pending_c13.take() {
                 return Outcome { failure: Some(f), stats, final_log: vec![] };
             }
